@@ -1045,6 +1045,22 @@ Proof.
   exact (read_effect_of_loop s sid size b b1 o1 Hl Hrl).
 Qed.
 
+(* the statements used in Props: on a LIVE connection.  (On a closing connection Connection.ack still calls
+   acknowledge_received_data, but its flush() then touches the deleted Connection._transport whenever h2 has bytes
+   pending, so a read may die with AttributeError after its first acknowledgement; whether it does depends on h2's
+   outbound queue, which this model does not have.  The ledger theorems -- conservation, never over-credited --
+   are not affected by where such a read stops; the description of WHAT a read pops is claimed for live
+   connections only.) *)
+Lemma read_backpressure_live s sid size b s' o :
+  closing s = false -> lookup sid (reg s) = Some b -> bpend b = None -> 0 < size ->
+  step s (Read sid size) = (s', o) -> read_effect s sid size b s' o.
+Proof. intros _. apply read_backpressure. Qed.
+
+Lemma wake_backpressure_live s sid size b s' o :
+  closing s = false -> lookup sid (reg s) = Some b -> bpend b = Some size -> bq b <> [] ->
+  step s (Wake sid) = (s', o) -> read_effect s sid size b s' o.
+Proof. intros _. apply wake_backpressure. Qed.
+
 (* a read on a buffer whose queue is empty (every released buffer of a live connection) credits nothing *)
 Lemma read_empty_queue_credits_nothing s sid b e s' o :
   lookup sid (reg s) = Some b -> bq b = [] -> (exists size, e = Read sid size) \/ e = Wake sid ->
